@@ -3,6 +3,7 @@
 mod anyprov;
 mod c05;
 mod c06;
+mod c10;
 mod c07;
 mod c11;
 mod c12;
@@ -106,6 +107,7 @@ fn main() {
         "c16" => c16::run(&opts),
         "c17" => c17::run(&opts),
         "c18" => c18::run(&opts),
+        "c10x" => c10::run(&opts),
         "c11" => c11::run(&opts),
         "c12" => c12::run(&opts),
         "c05" => c05::run(&opts),
